@@ -73,6 +73,27 @@ def gaugeCycleOK (observed : List (Nat × Int)) (r : Report) : Bool :=
 /-- synchronous gauge read cumulatively: every set ever recorded, with the last value recorded -/
 def gaugeCumOK (allRecorded : List (Nat × Int)) (r : Report) : Bool := gaugeCycleOK allRecorded r
 
+/-! ### whole-history forms (one instrument, `n` collection cycles; `eff[k]` / `recd[k]` = what reached the
+instrument in cycle `k`, `ds[k]` / `cs[k]` = what the delta / cumulative reader reported at collection `k`) -/
+
+/-- asynchronous sum: every cycle reports exactly the observed sets; the cumulative reader the observed value, the
+delta reader the observed value minus the value observed in the immediately preceding cycle -/
+def asyncSumHistOK (eff : List (List (Nat × Int))) (ds cs : List Report) : Bool :=
+  (List.range eff.length).all fun k =>
+    asyncCumOK (eff.getD k []) (cs.getD k []) &&
+    asyncDeltaOK (if k = 0 then [] else eff.getD (k - 1) []) (eff.getD k []) (ds.getD k [])
+
+/-- asynchronous gauge: both readers report the last value observed in the cycle for exactly the observed sets -/
+def asyncGaugeHistOK (eff : List (List (Nat × Int))) (ds cs : List Report) : Bool :=
+  (List.range eff.length).all fun k =>
+    gaugeCycleOK (eff.getD k []) (cs.getD k []) && gaugeCycleOK (eff.getD k []) (ds.getD k [])
+
+/-- synchronous gauge: the delta reader reports the last value recorded in the cycle, the cumulative reader the
+last value ever recorded for every set ever recorded -/
+def syncGaugeHistOK (recd : List (List (Nat × Int))) (ds cs : List Report) : Bool :=
+  (List.range recd.length).all fun k =>
+    gaugeCycleOK (recd.getD k []) (ds.getD k []) && gaugeCumOK ((recd.take (k + 1)).flatten) (cs.getD k [])
+
 /-- interval flags of one reported stream: `startCycle` = none for the creation window, some k' for the window of
 collection k'; `timeCycle` likewise; `p`/`f` = some b when the comparison was possible -/
 structure Interval where
